@@ -8,11 +8,24 @@ def s(comp, q, t, nops=60, **opts):
     return (comp, q, t, nops, opts)
 
 
+# a few cases with lists of 15-60 entries and long histories: anything that depends on a size threshold, on the hash
+# table growing, or on a state that needs a long prefix is invisible in the small cases
+BIG = [s(c, 1, 12, 700, big=1) for c in ALL5]
+# one long history on lists of 1030-1700 entries (states printed as digests): size thresholds around 1024
+def huge(comp, q=1, t=6):
+    return s(comp, q, t, 0, huge=1)
+
+
+# caches built with sizes just past 2^10, 2^12, 2^16, 2^20: every list must really get the requested capacity
+def bigctor(comp, q=4, t=24):
+    return s(comp, q, t, 0, bigctor=1)
+
+
 PROPS = {
     "C01": dict(
         title="Capacity bound and size accounting",
         modules=["Caches.Properties.C01"],
-        suites=[s(c, 80, 2500) for c in ALL5] + [s("rawfrom", 20, 200, 8), s("wtsizes", 24, 200, 7)],
+        suites=[s(c, 80, 2500) for c in ALL5] + [s("rawfrom", 48, 400, 8), s("wtsizes", 24, 200, 7)] + BIG,
         fields={"result", "state", "panic", "ctor", "sz"},
         only_ops=None,
         monitor="C01",
@@ -21,7 +34,7 @@ PROPS = {
     "C02": dict(
         title="Coherence",
         modules=["Caches.Properties.C02"],
-        suites=[s(c, 80, 2500) for c in ALL5],
+        suites=[s(c, 80, 2500) for c in ALL5] + BIG,
         fields={"result", "state", "panic"},
         monitor="C02",
         variants="keys_hashers",
@@ -30,7 +43,7 @@ PROPS = {
     "C03": dict(
         title="Memory safety of the intrusive lists",
         modules=["Caches.Properties.C03"],
-        suites=[s(c, 80, 2500) for c in ALL5] + [s("rawfrom", 20, 200, 8)],
+        suites=[s(c, 80, 2500) for c in ALL5] + [s("rawfrom", 48, 400, 8)],
         fields={"au", "panic", "state"},
         monitor="C03",
         design="6/C03",
@@ -39,7 +52,8 @@ PROPS = {
         title="Ownership conservation",
         modules=["Caches.Properties.C04"],
         suites=[s(c, 80, 2500, variant="keys=trk hasher=default") for c in ALL5]
-               + [s(c, 20, 500, variant="keys=trk hasher=zero") for c in ALL5] + [s("rawfrom", 20, 200, 8)],
+               + [s(c, 20, 500, variant="keys=trk hasher=zero") for c in ALL5] + [s("rawfrom", 48, 400, 8)]
+               + [s(c, 1, 12, 700, big=1, variant="keys=trk hasher=default") for c in ALL5],
         fields={"dr", "heap", "live", "dd"},
         monitor="C04",
         design="6/C04",
@@ -57,7 +71,7 @@ PROPS = {
     "C06": dict(
         title="RawLRU recency order",
         modules=["Caches.Properties.C06"],
-        suites=[s("rawlru", 250, 8000), s("rawfrom", 20, 300, 8)],
+        suites=[s("rawlru", 250, 8000), s("rawfrom", 20, 300, 8)] + [huge("rawlru"), bigctor("rawlru")],
         fields={"result", "state", "panic"},
         monitor="C06",
         design="6/C06",
@@ -65,7 +79,7 @@ PROPS = {
     "C07": dict(
         title="Segmented LRU policy",
         modules=["Caches.Properties.C07"],
-        suites=[s("slru", 250, 8000)],
+        suites=[s("slru", 250, 8000)] + [huge("slru"), bigctor("slru")],
         fields={"result", "state", "panic"},
         monitor="C07",
         design="6/C07",
@@ -73,7 +87,7 @@ PROPS = {
     "C08": dict(
         title="2Q policy",
         modules=["Caches.Properties.C08"],
-        suites=[s("twoq", 250, 8000)],
+        suites=[s("twoq", 250, 8000)] + [huge("twoq"), bigctor("twoq")],
         fields={"result", "state", "panic", "ctor"},
         monitor="C08",
         design="6/C08",
@@ -81,7 +95,7 @@ PROPS = {
     "C09": dict(
         title="ARC policy",
         modules=["Caches.Properties.C09"],
-        suites=[s("arc", 250, 8000)],
+        suites=[s("arc", 250, 8000)] + [huge("arc"), bigctor("arc")],
         fields={"result", "state", "panic"},
         monitor="C09",
         design="6/C09",
@@ -89,7 +103,7 @@ PROPS = {
     "C10": dict(
         title="W-TinyLFU admission",
         modules=["Caches.Properties.C10"],
-        suites=[s("wtinylfu", 250, 8000)],
+        suites=[s("wtinylfu", 250, 8000)] + [huge("wtinylfu"), bigctor("wtinylfu")],
         fields={"result", "state", "panic"},
         monitor="C10",
         design="6/C10",
@@ -106,7 +120,7 @@ PROPS = {
     "C12": dict(
         title="PutResult tells the truth",
         modules=["Caches.Properties.C12"],
-        suites=[s(c, 80, 2500) for c in ALL5] + [s("putresult", 1, 1, 0)],
+        suites=[s(c, 80, 2500) for c in ALL5] + [s("putresult", 1, 1, 0)] + BIG,
         fields={"result", "state", "panic"},
         only_ops={"put", "putprotected", "peekorput", "peekmutorput", "containsorput", "preq", "preqself", "prclone"},
         monitor="C12",
@@ -115,7 +129,7 @@ PROPS = {
     "C13": dict(
         title="Read-only operations",
         modules=["Caches.Properties.C13"],
-        suites=[s(c, 80, 2500) for c in ALL5],
+        suites=[s(c, 80, 2500) for c in ALL5] + BIG,
         fields={"state"},
         monitor="C13",
         design="6/C13",
